@@ -245,4 +245,46 @@ theorem AllStrKV_of_forall {P : String → Prop} : ∀ {kvs : KVs}, (∀ e ∈ k
     simp only [AllStrKV]
     exact ⟨h.1.1, h.1.2, AllStrKV_of_forall h.2⟩
 
+/-- what holds of every entry of a section on both sides holds of every entry of the section after the import -/
+theorem importSection_forall {Q : String → Val → Prop} {key : String} {src tgt m : KVs} (h : importSection key src tgt = .ok m)
+    (hs : ∀ objs, Val.lookup key src = some (.map objs) → ∀ e ∈ objs, Q e.1 e.2)
+    (ht : ∀ objs, Val.lookup key tgt = some (.map objs) → ∀ e ∈ objs, Q e.1 e.2) :
+    ∀ objs, Val.lookup key m = some (.map objs) → ∀ e ∈ objs, Q e.1 e.2 := by
+  rcases importSection_spec h with ⟨_, rfl⟩ | ⟨res, to, to', hres, hto, himp, rfl⟩
+  · exact ht
+  · intro objs hl
+    rw [lookup_insert_self] at hl
+    cases hl
+    refine forall_importObjs himp (hs res hres) ?_
+    rcases hto with hto | ⟨rfl, _⟩
+    · exact ht to hto
+    · intro e he; cases he
+
+/-- the imported section, whatever its kind, is untainted when both sides are -/
+theorem importSection_AllStr {P : String → Prop} {key : String} {src tgt m : KVs} (h : importSection key src tgt = .ok m)
+    (hs : ∀ v, Val.lookup key src = some v → AllStr P v) (ht : ∀ v, Val.lookup key tgt = some v → AllStr P v) :
+    ∀ v, Val.lookup key m = some v → AllStr P v := by
+  rcases importSection_spec h with ⟨_, rfl⟩ | ⟨res, to, to', hres, hto, himp, rfl⟩
+  · exact ht
+  · intro v hl
+    rw [lookup_insert_self] at hl
+    cases hl
+    simp only [AllStr]
+    refine AllStrKV_of_forall (forall_importObjs (Q := fun n v => P n ∧ AllStr P v) himp ?_ ?_)
+    · have := hs _ hres
+      simp only [AllStr] at this
+      exact AllStrKV_forall this
+    · rcases hto with hto | ⟨rfl, _⟩
+      · have := ht _ hto
+        simp only [AllStr] at this
+        exact AllStrKV_forall this
+      · intro e he; cases he
+
+/-- `loadSection` reads its own section only -/
+theorem loadSection_congr (isSecret : Bool) (env : Env) (pname : String) {dict dict' : KVs}
+    (h : Val.lookup (if isSecret then "secrets" else "configs") dict = Val.lookup (if isSecret then "secrets" else "configs") dict') :
+    loadSection isSecret env pname dict = loadSection isSecret env pname dict' := by
+  unfold loadSection
+  rw [h]
+
 end CV.Secrets
